@@ -104,7 +104,11 @@ def detect(d, tier="quick"):
             print(pid, "exit", rc, viol[:2])
     finally:
         sh(["git", "-C", REPO, "checkout", "--", "."])
-    json.dump(res, open(os.path.join(d, "detected.json"), "w"), indent=1)
+    out = os.path.join(d, "detected.json")
+    first = os.path.join(d, "detected_first.json")
+    if os.path.exists(out) and not os.path.exists(first):
+        os.rename(out, first)          # keep the result of the first detection run (before any strengthening)
+    json.dump(res, open(out, "w"), indent=1)
 
 
 if __name__ == "__main__":
